@@ -38,4 +38,10 @@ META["C06"] = {
     "technique": "property-based testing (rapid) with structure-aware mutators + native go fuzzing; oracle: no panic / deadline",
 }
 
+META["C03"] = {
+    "text": "Differential verdict testing: for every decodable mutant of a validly signed message the library's Verify verdict must equal the verdict of an independent verifier that recomputes the RFC structures from the received bytes; accepting an invalid signature and rejecting a valid one are both failures. Exploration is the right level for an iff over all reachable wire messages; classes of attack (field edits, signature re-spellings, key/alg/external changes, re-tagging, transplants) are forced by the generator.",
+    "note": TRUST + " Unforgeability of the primitives is assumed.",
+    "technique": "property-based testing (rapid) with structure-aware mutation + rapid.MakeFuzz under go fuzzing; oracle: differential against an independent reference verifier",
+}
+
 NOT_APPLICABLE = {}
